@@ -72,8 +72,6 @@ def _compare_structure(ctx, what, ci_list, point, quantiles, wit):
             ok &= ctx.check(_idx_set(e) <= _idx_set(point), "ci_entry_index_not_in_estimate_index:" + what, entry=sorted(_idx_set(e))[:12],
                             estimate=sorted(_idx_set(point))[:12], wit=wit)
             ok &= ctx.check(list(e.index.names) == list(point.index.names), "ci_entry_index_names_differ:" + what, wit=wit)
-            if isinstance(point, pd.Series) and isinstance(e, pd.Series):
-                ok &= ctx.check(e.name == point.name, "ci_entry_series_name_differs:" + what, entry=repr(e.name), estimate=repr(point.name))
     return ok
 
 
